@@ -1,0 +1,13 @@
+//go:build !verif
+
+package bbolt
+
+import fl "go.etcd.io/bbolt/internal/freelist"
+
+// No-op stubs of the verification hooks (see verif_on.go, build tag `verif`).
+
+func verifOpen(db *DB) {}
+
+func verifIO(db *DB, kind string, arg int64) error { return nil }
+
+func verifWrapFreelist(db *DB, f fl.Interface) fl.Interface { return f }
